@@ -38,6 +38,59 @@ def scan_reverse(x):
     return lax.scan(step, jnp.zeros_like(x[0]), x, reverse=True)[1]
 
 
+def _shared_step(c, xs):
+    c2 = c * 0.5 + xs
+    return c2, c2 + 1.0
+
+
+def scan_fwd_shared(x):
+    """Forward scan over the cell that scan_rev_shared / scan_fwd_rev reverse-scan."""
+    return lax.scan(_shared_step, jnp.zeros_like(x[0]), x)[1]
+
+
+def scan_rev_shared(x):
+    return lax.scan(_shared_step, jnp.zeros_like(x[0]), x, reverse=True)[1]
+
+
+def scan_fwd_rev(x):
+    # the same cell function scanned forward and then in reverse inside one callable
+    a = lax.scan(_shared_step, jnp.zeros_like(x[0]), x)[1]
+    b = lax.scan(_shared_step, jnp.zeros_like(x[0]), x, reverse=True)[1]
+    return a + 2.0 * b
+
+
+def _br_a(v):
+    return v + 1.0
+
+
+def _br_b(v):
+    return v * 2.0
+
+
+def _br_c(v):
+    return -v
+
+
+def switch2_shared(i, x):
+    return lax.switch(i, [_br_a, _br_b], x)
+
+
+def switch3_shared(i, x):
+    return lax.switch(i, [_br_a, _br_b, _br_c], x)
+
+
+def _fori_body_shared(i, v):
+    return v * 0.9 + 1.0
+
+
+def fori_static_shared(x):
+    return lax.fori_loop(0, 3, _fori_body_shared, x)
+
+
+def fori_dynamic_shared(n, x):
+    return lax.fori_loop(0, n, _fori_body_shared, x)
+
+
 def fori_dynamic(n, x):
     return lax.fori_loop(0, n, lambda i, v: v * 0.9 + 1.0, x)
 
@@ -68,6 +121,11 @@ def cat_fn_switch3(i, x):
 @onnx_function
 def cat_fn_scan_reverse(x):
     return scan_reverse(x) + 1.0
+
+
+@onnx_function
+def cat_fn_scan_fwd_rev(x):
+    return scan_fwd_rev(x) + 1.0
 
 
 @onnx_function
@@ -139,6 +197,24 @@ def _mk(name: str) -> Program:
         else:
             f2 = cat_fn_scan_reverse if place == "fn" else scan_reverse
         return _prog(name, lambda x: f2(x), _spec(_XS), [[_XS]])
+    if kind == "scan_fwd_rev":
+        if place == "loop":
+            f3 = lambda x: lax.fori_loop(0, 2, lambda i, v: scan_fwd_rev(v), x)  # noqa: E731
+        else:
+            f3 = cat_fn_scan_fwd_rev if place == "fn" else scan_fwd_rev
+        return _prog(name, lambda x: f3(x), _spec(_XS), [[_XS]])
+    if kind == "switch2_shared":
+        return _prog(name, lambda i, x: switch2_shared(i, x), _spec(_I[0], _X), [[i, _X] for i in _I[:2]])
+    if kind == "switch3_shared":
+        return _prog(name, lambda i, x: switch3_shared(i, x), _spec(_I[0], _X), [[i, _X] for i in _I])
+    if kind == "fori_static_shared":
+        return _prog(name, lambda x: fori_static_shared(x), _spec(_X), [[_X]])
+    if kind == "fori_dynamic_shared":
+        return _prog(name, lambda n, x: fori_dynamic_shared(n, x), _spec(np.int32(3), _X), [[np.int32(k), _X] for k in (0, 1, 3, 5)])
+    if kind == "scan_fwd_shared":
+        return _prog(name, lambda x: scan_fwd_shared(x), _spec(_XS), [[_XS]])
+    if kind == "scan_rev_shared":
+        return _prog(name, lambda x: scan_rev_shared(x), _spec(_XS), [[_XS]])
     if kind == "fori_dynamic":
         f = cat_fn_fori_dynamic if place == "fn" else wrap(fori_dynamic)
         return _prog(name, lambda n, x: f(n, x), _spec(np.int32(3), _X), [[np.int32(k), _X] for k in (0, 1, 3, 5)])
